@@ -70,10 +70,28 @@ def run_case(desc):
     c = sc.prepare(desc, out)
     if c is None:
         return out
-    ok, r = call(lambda: (lambda an: (an.get_space_group_number(), an.get_conventional_system()))(sc.analyzer_for(c, desc, out)))
+    from vlib.case import dhash
+    order = (int(dhash(desc), 16) >> 7) % 3      # sibling getters: none / primitive system first / primitive system and sets afterwards
+
+    def analyse():
+        an = sc.analyzer_for(c, desc, out)
+        if order == 1:
+            an.get_primitive_system()
+        sgn_ = an.get_space_group_number()
+        conv_ = an.get_conventional_system()
+        snap = (np.asarray(conv_.get_cell()).copy(), conv_.get_positions().copy(), conv_.get_atomic_numbers().copy())
+        if order == 2:
+            an.get_primitive_system()
+            an.get_wyckoff_sets_conventional(True)
+            an.get_material_id()
+        return sgn_, conv_, snap
+    ok, r = call(analyse)
     if not ok:
         return out.fail("returns-normally", "%r" % r, key="exc:" + exc_key(r))
-    sgn, conv = r
+    sgn, conv, snap = r
+    out.cls("sibling-getters:%d" % order)
+    if not (np.array_equal(snap[0], np.asarray(conv.get_cell())) and np.array_equal(snap[1], conv.get_positions()) and np.array_equal(snap[2], conv.get_atomic_numbers())):
+        out.fail("returned-object-stable", "the conventional system handed to the caller changed when get_primitive_system / get_wyckoff_sets_conventional / get_material_id were called afterwards")
     sohncke = c.sg in spgref.sohncke()
     _COVER[c.sg] = _COVER.get(c.sg, 0) + 1
     out.cls("sohncke" if sohncke else "achiral")
